@@ -4,7 +4,7 @@
    [run_struct L fuel (Lax tr)] is AstVm on the nested program (tr: does vm.rs assign `time` at
    the fall-through points -- read out of the source by gen/desugar_rules.py), [run_flat] is AstVm on the flat
    statement list that [desugar] (passes::desugar_blocks::run) produces; a state carries script
-   time, real time, the instruction log (with real times) and the registers.  [Strict fl] is
+   time, real time, the instruction log (with real times) and the registers.  [Strict tg fl] is
    AstVm instrumented with run-time guards (Model/Blocks.v: the two `times` guards, and for
    [tg = true] the time guard); the theorems say exactly
    when the two interpreters agree, and that outside the guards they do not. *)
